@@ -67,7 +67,8 @@ def message_stanza(r, kind):
     from yowsup.layers.protocol_messages.proto.protocol_pb2 import MessageKey
     a = {"id": gen.msgid(r), "from": gen.jid(r), "t": str(r.randint(1, 2 ** 31 - 1)), "notify": "N", "offline": "0", "type": "text"}
     if r.random() < 0.4:
-        a["from"] = gen.jid(r, True)
+        # (a sender inside a group - classic id with a dash or a newer one without -, a broadcast list or the status list)
+        a["from"] = r.choice([gen.jid(r, True), gen.jid(r, True), "1203630%s@g.us" % gen.s_from(r, gen.DIGITS, 11), "%s@broadcast" % gen.s_from(r, gen.DIGITS, 10), "status@broadcast"])
         a["participant"] = gen.jid(r)
     m = Message()
     pattrs = {}
